@@ -1,6 +1,7 @@
 package main
 
 import (
+	"fmt"
 	"go/ast"
 	"go/constant"
 	"strings"
@@ -16,6 +17,7 @@ func strConst(lean, rel, name string) {
 }
 
 func facts() {
+	colorFacts()
 	// ---- protocol constants
 	const proto = "internal/protocol/protocol.go"
 	if v, n := findConst(proto, "MessageDelimiter"); v != nil {
@@ -121,4 +123,81 @@ func facts() {
 		defStringList("regexFlagNames", names, pos(fn)+" NewFlag")
 		defStringList("regexFlagValues", vals, pos(fn)+" NewFlag")
 	}
+}
+
+// colour constants and the default colour table (C16)
+func colorFacts() {
+	const cf = "internal/color/color.go"
+	f := file(cf)
+	if f == nil {
+		return
+	}
+	env := map[string]constant.Value{}
+	for _, d := range f.Decls {
+		gd, ok := d.(*ast.GenDecl)
+		if !ok {
+			continue
+		}
+		for _, s := range gd.Specs {
+			vs, ok := s.(*ast.ValueSpec)
+			if !ok {
+				continue
+			}
+			for i, n := range vs.Names {
+				if i < len(vs.Values) {
+					if v := eval(vs.Values[i], env); v != nil {
+						env[n.Name] = v
+					}
+				}
+			}
+		}
+	}
+	for _, k := range []string{"FgDefault", "BgDefault", "AttrNone", "AttrReset"} {
+		if s, ok := constStr(env[k]); ok {
+			emit("def color%s : List UInt8 := %s", k, leanBytes([]byte(s)))
+		} else {
+			problem("colour constant %s not found", k)
+		}
+	}
+	fn := findFunc("internal/config/client.go", "", "newDefaultClientConfig")
+	if fn == nil {
+		return
+	}
+	var rows []string
+	var walk func(prefix string, n ast.Node)
+	walk = func(prefix string, n ast.Node) {
+		cl, ok := n.(*ast.CompositeLit)
+		if !ok {
+			return
+		}
+		for _, e := range cl.Elts {
+			kv, ok := e.(*ast.KeyValueExpr)
+			if !ok {
+				continue
+			}
+			key := src(kv.Key)
+			switch v := kv.Value.(type) {
+			case *ast.CompositeLit:
+				walk(prefix+key+".", v)
+			case *ast.SelectorExpr:
+				if s, ok := constStr(env[v.Sel.Name]); ok {
+					rows = append(rows, fmt.Sprintf("(%s, %s)", leanStr(prefix+key), leanBytes([]byte(s))))
+				} else {
+					problem("colour %s for %s%s unknown", src(v), prefix, key)
+				}
+			}
+		}
+	}
+	ast.Inspect(fn, func(x ast.Node) bool {
+		if kv, ok := x.(*ast.KeyValueExpr); ok && src(kv.Key) == "TermColors" {
+			walk("", kv.Value)
+			return false
+		}
+		return true
+	})
+	if len(rows) == 0 {
+		problem("default colour table not found")
+	}
+	emit("/-- internal/config/client.go newDefaultClientConfig: the default colour table -/")
+	emit("def termColors : List (String × List UInt8) := [\n  %s]", strings.Join(rows, ",\n  "))
 }
